@@ -40,6 +40,10 @@ import (
 // The error a provider refuses with: perropt = () | (x<text> n<kind> x<prefix>), text = err.Error(),
 // kind 0 = an opaque error with that text, the others the errors a provider really returns:
 // see refusalError.
+//
+// The error a failing Write/Flush returns: the verdict's index e selects the VALUE (e/1000 = its
+// "character": the harness's opaque type, or a value that is / wraps a well-known sentinel), and
+// what Send/Flush returned is projected back to that index by identity: session_errs.go.
 
 func init() { families["session"] = family{gen: genSession, exec: execSession} }
 
@@ -87,7 +91,7 @@ func (r *rwRec) write(p []byte) (int, error) {
 		if k > len(p) {
 			k = len(p)
 		}
-		return k, codeErr{e}
+		return k, sessErr(e)
 	}
 	return len(p), nil
 }
@@ -97,7 +101,7 @@ func (r *rwRec) flush(canReport bool) error {
 	fail, _, e, _ := r.next()
 	if fail && canReport {
 		*r.cur = append(*r.cur, val.L(val.N(2), val.N(e)))
-		return codeErr{e}
+		return sessErr(e)
 	}
 	*r.cur = append(*r.cur, val.L(val.N(2), val.N(0)))
 	return nil
@@ -204,7 +208,7 @@ func runSessionCalls(rec *rwRec, back *[]val.V, mw sse.MessageWriter, pool []*ss
 			err = mw.Flush()
 		}
 		rec.phase(back)
-		out = append(out, val.L(val.N(errCode(err)), val.List(bucket)))
+		out = append(out, val.L(val.N(sessErrCode(err)), val.List(bucket)))
 	}
 	return out
 }
@@ -244,8 +248,13 @@ func (p *recProvider) Subscribe(_ context.Context, sub sse.Subscription) error {
 // 1: sse.ErrProviderClosed itself (what Joe answers after Shutdown); 2: an error wrapping it
 // ("<prefix>: %w", what an adapter around another provider returns); 3: context.Canceled;
 // 4: sse.ErrNoTopic; 5: an error wrapping context.Canceled; 6: context.DeadlineExceeded;
-// 7: an error wrapping sse.ErrNoTopic; 8: errors.Join of an opaque error and sse.ErrProviderClosed.
+// 7: an error wrapping sse.ErrNoTopic; 8: errors.Join of an opaque error and sse.ErrProviderClosed;
+// 9 and above: the error characters of session_errs.go (character kind-8: the sentinels of net/http, io,
+// context, net, os and of the library, themselves / wrapped / matched through Is / joined / inside a *net.OpError ...).
 func refusalError(kind uint64, text, prefix string) error {
+	if kind >= refusalKinds && kind < refusalKindsAll {
+		return sessErrValue(1000*(kind-refusalKinds+1) + 7)
+	}
 	switch kind {
 	case 1:
 		return sse.ErrProviderClosed
@@ -268,6 +277,7 @@ func refusalError(kind uint64, text, prefix string) error {
 }
 
 const refusalKinds = 9
+const refusalKindsAll = refusalKinds + sessChars - 1
 
 // perrV: the input form of a refusal (the text is what the error says, on this tree)
 func perrV(kind uint64, prefix string) val.V {
@@ -285,6 +295,7 @@ func (p *recProvider) Shutdown(context.Context) error       { return nil }
 
 func execSession(in val.V) val.V {
 	return guard(func() val.V {
+		sessReset()
 		switch in.At(0).Num() {
 		case 0:
 			return execSessionCalls(in)
@@ -525,6 +536,30 @@ func failAt(k int, accept int, code uint64) val.V {
 	return val.List(script)
 }
 
+// withChars gives every failing verdict of a script an error character (session_errs.go): the index
+// n<low> becomes low + 1000*char, char drawn per verdict.
+func withChars(c *Ctx, script val.V) val.V {
+	items := script.Items()
+	out := make([]val.V, len(items))
+	for i, v := range items {
+		if v.Len() == 2 {
+			out[i] = val.L(v.At(0), val.N(sessIdx(c.R, c, v.At(1).Num()%1000)))
+		} else {
+			out[i] = v
+		}
+	}
+	return val.List(out)
+}
+
+// allFail: a writer that never recovers - every one of n operations fails with the error of that index
+func allFail(n int, accept int, idx uint64) val.V {
+	script := make([]val.V, n)
+	for i := range script {
+		script[i] = val.L(val.Int(accept), val.N(idx))
+	}
+	return val.List(script)
+}
+
 func genRandMsg(r *rng.R) val.V {
 	var id, typ *string
 	if r.Intn(3) == 0 {
@@ -588,19 +623,19 @@ func genSession(c *Ctx) {
 			c.Emit(val.L(val.N(0), shape, pool, val.List(seq), val.L(), pre))
 			if ops > 0 {
 				c.Count("exhaustive:content-type-preset")
-				c.Emit(val.L(val.N(0), shape, pool, val.List(seq), failAt(0, 0, 7), presets[c.R.Intn(len(presets))]))
+				c.Emit(val.L(val.N(0), shape, pool, val.List(seq), withChars(c, failAt(0, 0, 7)), presets[c.R.Intn(len(presets))]))
 			}
 			for k := 0; k < ops; k++ {
 				for _, accept := range []int{0, 1, 1000} {
 					c.Count("exhaustive:failure-at-every-operation")
-					c.Emit(val.L(val.N(0), shape, pool, val.List(seq), failAt(k, accept, uint64(2+k%7))))
+					c.Emit(val.L(val.N(0), shape, pool, val.List(seq), withChars(c, failAt(k, accept, uint64(2+k%7)))))
 					if accept == 0 && k+1 < ops && c.R.Intn(4) == 0 {
 						// a second failure later on
 						k2 := k + 1 + c.R.Intn(ops-k-1)
 						s := failAt(k2, c.R.Intn(3), 9).Items()
 						s[k] = val.L(val.Int(c.R.Intn(3)), val.N(8))
 						c.Count("exhaustive:two-failures")
-						c.Emit(val.L(val.N(0), shape, pool, val.List(seq), val.List(s)))
+						c.Emit(val.L(val.N(0), shape, pool, val.List(seq), withChars(c, val.List(s))))
 					}
 				}
 			}
@@ -609,6 +644,36 @@ func genSession(c *Ctx) {
 	for _, shape := range deadShapes {
 		c.Count("upgrade:writer-cannot-flush")
 		c.Emit(val.L(val.N(0), shape, pool, val.L(sendV(0), flushV()), val.L()))
+	}
+
+	// error characters: EVERY character (the sentinels of net/http, io, context, net, os, syscall and the library,
+	// themselves / wrapped / matched through an Is method / joined / inside a *net.OpError ...) as the error of the
+	// k-th writer operation for EVERY k, on the FlushError route (plain, dual, behind Unwrap) and on the Flusher
+	// route, over call sequences that put a failing flush at the upgrade, after it, and a failing Write at every
+	// position of a message; and as the error of a writer that never recovers (every operation fails with it: e.g.
+	// a middleware whose FlushError asks a ResponseController over a writer without Flush)
+	charShapes := []val.V{shFlushError, shBoth, shapeV(false, false, shFlushError), shFlusher}
+	charSeqs := [][]val.V{
+		{flushV(), sendV(0)},
+		{sendV(1), flushV()},
+		{sendV(0), flushV(), flushV()},
+		{sendV(2), flushV(), sendV(0)},
+	}
+	for char := 1; char < sessChars; char++ {
+		for si, shape := range charShapes {
+			for qi, seq := range charSeqs {
+				if !c.Thorough && (si+qi+char)%2 == 1 && si > 0 {
+					continue // quick tier: every sequence on the plain FlushError writer, half of them on the others
+				}
+				ops := countOps(shape, pool, seq)
+				for k := 0; k < ops; k++ {
+					c.Count("characters:failure-at-every-operation")
+					c.Emit(val.L(val.N(0), shape, pool, val.List(seq), failAt(k, k%2, sessIdxOf(c, uint64(2+k), char))))
+				}
+				c.Count("characters:writer-never-recovers")
+				c.Emit(val.L(val.N(0), shape, pool, val.List(seq), allFail(4*len(seq)+8, 0, sessIdxOf(c, 5, char))))
+			}
+		}
 	}
 
 	// random: random messages, longer call sequences, scripts with several failures
@@ -646,7 +711,7 @@ func genSession(c *Ctx) {
 			pre = presets[c.R.Intn(len(presets))]
 			c.Count("random:content-type-preset")
 		}
-		c.Emit(val.L(val.N(0), rng.Pick(c.R, flushShapes), val.List(msgs), val.List(calls), val.List(script), pre))
+		c.Emit(val.L(val.N(0), rng.Pick(c.R, flushShapes), val.List(msgs), val.List(calls), withChars(c, val.List(script)), pre))
 	}
 
 	// ServeHTTP: every combination of writer shape, Last-Event-Id values, OnSession result,
@@ -728,10 +793,33 @@ func genSession(c *Ctx) {
 							continue
 						}
 						c.Count("serve")
-						c.Emit(val.L(val.N(1), sh, h, o, pool, val.List(p.calls), p.perr, s))
+						c.Emit(val.L(val.N(1), sh, h, o, pool, val.List(p.calls), p.perr, withChars(c, s)))
 					}
 				}
 			}
+		}
+	}
+	// every error character through ServeHTTP: as the error of the upgrade's flush / a later Write / a later flush
+	// while the provider sends, and as the error the provider refuses with (before and after sending)
+	for char := 1; char < sessChars; char++ {
+		for si, sh := range []val.V{shFlushError, shBoth, shapeV(false, false, shBoth), shFlusher} {
+			if !c.Thorough && si > 0 && (si+char)%3 != 0 {
+				continue
+			}
+			calls := val.L(sendV(0), flushV(), sendV(1), flushV())
+			for _, k := range []int{0, 1, 3, 4} {
+				c.Count("serve:characters:writer-error")
+				c.Emit(val.L(val.N(1), sh, val.L(), val.L(), pool, calls, val.L(), failAt(k, 0, sessIdxOf(c, uint64(3+k), char))))
+			}
+			c.Count("serve:characters:writer-never-recovers")
+			c.Emit(val.L(val.N(1), sh, val.L(), val.L(), pool, calls, boom, allFail(24, 0, sessIdxOf(c, 4, char))))
+			perr := perrV(uint64(refusalKinds+char-1), "")
+			c.Count("serve:characters:refusal")
+			c.Emit(val.L(val.N(1), sh, val.L(), val.L(), pool, val.L(), perr, val.L()))
+			c.Count("serve:characters:refusal")
+			c.Emit(val.L(val.N(1), sh, val.L(), val.L(), pool, val.L(flushV()), perr, val.L()))
+			c.Count("serve:characters:refusal")
+			c.Emit(val.L(val.N(1), sh, val.L(val.S("5")), ons[1], pool, val.L(sendV(0), flushV()), perr, failAt(0, 0, sessIdxOf(c, 6, char))))
 		}
 	}
 	m := 1500
@@ -768,11 +856,17 @@ func genSession(c *Ctx) {
 		perr := val.L()
 		if c.R.Intn(2) == 0 {
 			texts := []string{"boom", "", "no topics", "line1\nline2", "provider is closed", "context canceled"}
-			perr = perrV(uint64(c.R.Intn(refusalKinds)), rng.Pick(c.R, texts))
-			c.Count(fmt.Sprintf("serve:random:refusal-kind-%d", perr.At(1).Num()))
+			if c.R.Intn(2) == 0 {
+				perr = perrV(uint64(c.R.Intn(refusalKinds)), rng.Pick(c.R, texts))
+				c.Count(fmt.Sprintf("serve:random:refusal-kind-%d", perr.At(1).Num()))
+			} else {
+				char := 1 + c.R.Intn(sessChars-1)
+				perr = perrV(uint64(refusalKinds+char-1), "")
+				c.Count("serve:random:refusal-character:" + sessCharName(char))
+			}
 		}
 		c.Count("serve:random")
-		c.Emit(val.L(val.N(1), rng.Pick(c.R, shapes), h, rng.Pick(c.R, ons), pool, val.List(calls), perr, val.List(script)))
+		c.Emit(val.L(val.N(1), rng.Pick(c.R, shapes), h, rng.Pick(c.R, ons), pool, val.List(calls), perr, withChars(c, val.List(script))))
 	}
 
 	// a real net/http server on the loopback interface, when this machine has one
